@@ -109,10 +109,16 @@ def _zadd(a, b):
         return b
     if isinstance(b, Fraction) and b == 0:
         return a
-    return _r(a) + _r(b)
+    r = _r(a) + _r(b)
+    if SIMPLIFY_SUMS[0]:
+        r = z3.simplify(r)
+        if z3.is_rational_value(r):
+            return Fraction(r.numerator_as_long(), r.denominator_as_long())
+    return r
 
 
 _FP_CACHE = {}
+SIMPLIFY_SUMS = [True]     # light z3 rewriting of sums (cancels x + g - x); no expansion of products
 
 
 def _fp_value(name):
@@ -897,18 +903,36 @@ class Explorer:
             pass
         return s
 
+    @staticmethod
+    def _dag_size(exprs, limit):
+        seen = set()
+        stack = list(exprs)
+        while stack:
+            t = stack.pop()
+            i = t.get_id()
+            if i in seen:
+                continue
+            seen.add(i)
+            if len(seen) > limit:
+                return len(seen)
+            stack.extend(t.children())
+        return len(seen)
+
     def _smt_subprocess(self, cons, timeout_ms):
         """second opinion from z3's SMT core (linear arithmetic + on-demand non-linear lemmas), run as a separate
         process because that engine does not honour timeouts reliably.  Only an 'unsat' answer is used."""
         import subprocess
         import tempfile
+        if self._dag_size(cons, 4000) > 4000:
+            return "unknown"       # far too large for the SMT core (and for printing)
         z3bin = os.path.join(sys.prefix, "bin", "z3")
         if not os.path.exists(z3bin):
             z3bin = "z3-new"
-        s = z3.Solver()
+        s = z3.SolverFor("QF_UFNRA" if self.uses_uf else "QF_NRA")     # tactic solver: add() only stores the assertion
         for c in cons:
             s.add(c)
         txt = s.to_smt2().replace("(check-sat)", "(check-sat-using (then simplify solve-eqs smt))")
+        txt = "\n".join(l for l in txt.splitlines() if not l.startswith("(set-logic"))
         with tempfile.NamedTemporaryFile("w", suffix=".smt2", delete=False) as f:
             f.write(txt)
             name = f.name
